@@ -325,6 +325,28 @@ def w3(chk, repo):
                 chk.violation("W3", "%s direction" % cn, "%s:%d" % (c.mod.rel, lits[0][0].lineno), "load direction is %s, expected %s" % (lits[0][1], direction))
         else:
             chk.undecided("W3", "%s direction" % cn, c.where, "np.outer(weights, literal direction) idiom not found")
+        # every per-load array (one row / entry per point mass or engine) is addressed with the loop index of the
+        # load being processed: a fixed row would apply another load's weights / magnitude / position
+        for loop in (ast.walk(f.node) if f is not None else ()):
+            if not isinstance(loop, ast.For):
+                continue
+            ivs = [x.id for x in ast.walk(loop.target) if isinstance(x, ast.Name)]
+            if not ivs:
+                continue
+            subs = [x for x in ast.walk(ast.Module(body=loop.body, type_ignores=[])) if isinstance(x, ast.Subscript)]
+
+            def first(x):
+                return x.slice.elts[0] if isinstance(x.slice, ast.Tuple) and x.slice.elts else x.slice
+
+            for iv in ivs:
+                per_load = {ast.unparse(x.value) for x in subs if isinstance(first(x), ast.Name) and first(x).id == iv}
+                for b in sorted(per_load):
+                    key = "%s per-load array %s indexed by %s" % (cn, b, iv)
+                    bad = [x for x in subs if ast.unparse(x.value) == b and not (isinstance(first(x), ast.Name) and first(x).id == iv) and isinstance(first(x), (ast.Constant, ast.UnaryOp, ast.Name, ast.BinOp))]
+                    if bad:
+                        chk.violation("W3", key, "%s:%d" % (c.mod.rel, bad[0].lineno), "%s is addressed as %s inside the loop over the loads, where the other accesses use the loop index %s: the load with index %s gets the row of another load" % (b, ast.unparse(bad[0])[:60], iv, iv))
+                    else:
+                        chk.ok("W3", key, "%s:%d" % (c.mod.rel, loop.lineno), "all accesses use the loop index")
         for r in runs:
             t = r.domains["SYMX"].table
             a = Acc(t)
